@@ -88,7 +88,10 @@ pub fn run(sc: Sc) -> Result<bool, Failure> {
         Err(p) => return Err(fail("compact-panic", format!("compact() panicked: {p}"))),
     };
     match r {
-        Err(CompactionError::EphemeralSavepointExists) | Err(CompactionError::PersistentSavepointExists) => {}
+        // any refusal will do: the property says "refuses to run". TransactionInProgress is what a
+        // check answers that runs between the two steps of an ephemeral savepoint's registration
+        // (its read reference is registered before the savepoint itself is listed)
+        Err(CompactionError::EphemeralSavepointExists) | Err(CompactionError::PersistentSavepointExists) | Err(CompactionError::TransactionInProgress) => {}
         Err(CompactionError::Storage(e)) => return Err(fail("compact-storage-error", format!("compact() failed: {e:?}"))),
         Err(e) => return Err(fail("compact-refusal-variant", format!("compact() refused with {e:?}, which does not name the savepoint that exists"))),
         Ok(b) => {
